@@ -27,6 +27,7 @@ ASSUMPTIONS = [
     "tosympy(); bool(k) and k == 0 <=> reference is the zero function; k1 == k2 (all node pairs) => reference functions "
     "equal; monomials strictly increasing, no zero coefficients, variables sorted inside a monomial; operands not mutated",
     "division by an identically-zero node is outside the domain (the reference raises) and such trees are discarded and counted",
+    "cost cap: trees whose expanded result could exceed degree 24 or 4000 terms are skipped and counted (skipped:too-large)",
 ]
 REQUIRED_LABELS = {"has-zero-node": 0.1, "has-denominator": 0.1, "mode:poly": 0.1}
 
@@ -303,9 +304,34 @@ def _check_structure(k, where):
                                 f"(the merge-based addition relies on this order)")
 
 
+def _size_bound(tree):
+    """(degree bound, term bound) of the expanded polynomial a tree denotes -- a cost estimate only."""
+    k = tree[0]
+    if k in ("var",):
+        return 1, 1
+    if k in ("int", "float"):
+        return 0, 1
+    if k == "lin":
+        return 1, len(tree[1]) + 1
+    subs = [_size_bound(t) for t in tree[1:] if isinstance(t, list) and t and isinstance(t[0], str)]
+    if not subs:
+        return 1, 1
+    if k == "pow":
+        dg, tm = subs[0]
+        n = abs(tree[2])
+        return dg * n, tm ** n
+    if k in ("mul", "div", "imul"):
+        return sum(d_ for d_, _ in subs), max(1, __import__("math").prod(t_ for _, t_ in subs))
+    return max(d_ for d_, _ in subs), sum(t_ for _, t_ in subs)
+
+
 def evaluate(case):
     Polynomial, RationalPolynomial = _kclasses()
     nodes = []
+    dg, tm = _size_bound(case["tree"])
+    if dg > 24 or tm > 4000:
+        # cost cap (stated in evidence): e.g. ((I+a+a1)**4)**4)**4 has 2145 terms of degree 64 and takes nine minutes
+        return Info(False, ["skipped:too-large"], None, {"skipped:too-large": 1})
     try:
         root = _eval(case["tree"], case["mode"], nodes, bool(case.get("tiny")))
         if case.get("final_div") and isinstance(root[0], Polynomial):
